@@ -106,6 +106,18 @@ func VerifH_C02_go_api() {
 			vm.Set("w3", ns)
 			vm.Set("w4", ni)
 			vm.Run("[typeof w1, typeof w2, typeof w3, w4, w3[0], w3.length, String(w1)]")
+			// Go values without a JavaScript counterpart: an error, never a panic
+			ch := make(chan int)
+			vm.ToValue(ch)
+			vm.Set("w5", ch)
+			if o := t.Object(); o != nil {
+				o.Set("ch", ch)
+				o.Set("chs", []chan int{ch})
+				o.Call("m", ch)
+			}
+			vm.Call("T", nil, ch)
+			vm.Call("T", ch)
+			t.Call(a, ch)
 		case 19:
 			vm.Get("")
 			vm.Get("T.p")
